@@ -56,21 +56,22 @@ def cursor_states(d):
 
 
 def run(ctx):
-    ctx.rule = ("generated G5 cascades (2-4 product Einsums, later ones reading earlier results, per-Einsum loop orders, shape partitioning of some members, rank orders); each: prefix/"
+    ctx.rule = ("generated G5 cascades (2-4 product Einsums, later ones reading earlier results, per-Einsum loop orders, shape partitioning of some members, rank orders) and G5conv cascades "
+                "(a convolution followed by an Einsum re-using its index names plainly, optionally partitioned); each: prefix/"
                 "segment/stand-alone text differential, cursor states after every Einsum, execution on 2 random inputs vs chained dense evaluation; non-trivial = cascade in which a later "
                 "Einsum reads an earlier result; distinct = distinct text")
     ctx.trusted = ["Lean kernel; Props/C05 (shared-state level)", "equality of the emitted statements is observed on the real compiler (sampled cascades), not derived from a model of the emitters",
                    "composition of results is decided by execution on sampled inputs (minifiber) against the chained dense oracle"]
     rng = random.Random(ctx.seed * 8191 + 5)
     k = 1 if ctx.tier == "quick" else 8
-    recs = pool.collect(ctx, [dict(gen="g5", count=60 * k, modes=["plain"], nexec=2)])
+    recs = pool.collect(ctx, [dict(gen="g5", count=60 * k, modes=["plain"], nexec=2), dict(gen="g5conv", count=20 * k, modes=["plain"], nexec=2)])
     reqs, metas = [], []
     for r in recs:
         if not r["ok"]:
             ctx.stat(("rejected_" if r["err_kind"] == "ValueError" else "compile_crash_") + str(r["err_kind"])); continue
         d = r["yaml"]
         n = len(d["einsum"]["expressions"])
-        ctx.case([r["text"]], nontrivial="reads_intermediate" in r["case"]["tags"])
+        ctx.case([r["text"]], nontrivial="reads_intermediate" in r["case"]["tags"] or "g5conv" in r["case"]["tags"])
         ctx.stat("cascade_len_%d" % n)
         full = r["text"]
         prev_len, issued_before = 0, 0
